@@ -149,6 +149,7 @@ type Response struct {
 	WallMs       int64          `json:"wall_ms"`
 	Scenarios    []string       `json:"scenarios,omitempty"`
 	RunHashes    []uint64       `json:"run_hashes,omitempty"`
+	ClassRuns    map[string]int `json:"class_runs,omitempty"`
 }
 
 // Replay is the replay file format.
@@ -493,6 +494,9 @@ type merged struct {
 	byScen map[string]*Response
 }
 
+// workerChunk is the number of runs one worker process executes before it is replaced.
+const workerChunk = 8000
+
 func (m *merged) add(r *Response) {
 	m.Runs += r.Runs
 	m.Steps += r.Steps
@@ -616,7 +620,7 @@ func cmdRun(args []string) int {
 		}
 		per := (total + w - 1) / w
 		var wg sync.WaitGroup
-		resps := make([]*Response, w)
+		resps := make([][]*Response, w)
 		errs := make([]error, w)
 		timeout := 40 * time.Minute
 		if *tier == "quick" {
@@ -630,8 +634,21 @@ func cmdRun(args []string) int {
 				if i+(cnt-1)*w >= total {
 					cnt = (total - i + w - 1) / w
 				}
-				req := Request{Scenario: sp.Name, Seed: seed, Start: i, Stride: w, Count: cnt, Recheck: 64, MaxViol: 4, Mode: "run", Property: plan.ID}
-				resps[i], errs[i] = runWorker(b, req, 2, timeout)
+				// one OS process per chunk: runs that end with tasks still parked (a capped run, a harness
+				// task whose condition never came true) leave their goroutines and everything they
+				// reference behind, so a worker's memory grows with the number of runs it has done
+				for off := 0; off < cnt && errs[i] == nil; off += workerChunk {
+					n := cnt - off
+					if n > workerChunk {
+						n = workerChunk
+					}
+					req := Request{Scenario: sp.Name, Seed: seed, Start: i + off*w, Stride: w, Count: n, Recheck: 64, MaxViol: 4, Mode: "run", Property: plan.ID}
+					var r *Response
+					r, errs[i] = runWorker(b, req, 2, timeout)
+					if errs[i] == nil {
+						resps[i] = append(resps[i], r)
+					}
+				}
 			}(i)
 		}
 		wg.Wait()
@@ -639,7 +656,9 @@ func cmdRun(args []string) int {
 			if errs[i] != nil {
 				fatal2("%v", errs[i])
 			}
-			m.add(resps[i])
+			for _, r := range resps[i] {
+				m.add(r)
+			}
 		}
 		fmt.Printf("simcheck: scenario %s: %d runs, outcomes %v\n", sp.Name, m.byScen[sp.Name].Runs, m.byScen[sp.Name].Outcomes)
 	}
@@ -760,7 +779,7 @@ func minimiseAndConfirm(b *build, scen string, seed uint64, v ViolationOut) (*Re
 		mv = v
 	} else {
 		var err error
-		resp, err = runWorker(b, Request{Scenario: scen, Mode: "shrink", TapeS: v.TapeS, TapeW: v.TapeW, Target: v.Class}, 2, 15*time.Minute)
+		resp, err = runWorker(b, Request{Scenario: scen, Mode: "shrink", TapeS: v.TapeS, TapeW: v.TapeW, Target: v.Class, Property: v.Property}, 2, 15*time.Minute)
 		if err != nil {
 			return nil, err
 		}
@@ -814,8 +833,21 @@ func safeName(s string) string {
 	return r
 }
 
+// outDir is where replays and evidence go: /verif, unless the run is against another tree than
+// /repo (SIMCHECK_REPO, used to evaluate seeded changes), whose results must never pass for
+// evidence about /repo.
+func outDir() string {
+	if d := os.Getenv("SIMCHECK_OUT"); d != "" {
+		return d
+	}
+	if os.Getenv("SIMCHECK_REPO") != "" {
+		return filepath.Join(os.TempDir(), "simcheck-other-tree")
+	}
+	return verifDir
+}
+
 func writeReplay(rp *Replay) string {
-	dir := filepath.Join(verifDir, "replays", rp.Property)
+	dir := filepath.Join(outDir(), "replays", rp.Property)
 	os.MkdirAll(dir, 0o755)
 	fp, _ := rp.Violation["fingerprint"].(string)
 	path := filepath.Join(dir, fmt.Sprintf("%s-%d-%d.json", safeName(fp), rp.VerifSeed, rp.Run))
@@ -894,9 +926,9 @@ func writeEvidence(plan *propertyPlan, tier string, seed uint64, m *merged, star
 		"wall_s":      wall,
 		"violations":  len(vio),
 	}
-	os.MkdirAll(filepath.Join(verifDir, "evidence"), 0o755)
+	os.MkdirAll(filepath.Join(outDir(), "evidence"), 0o755)
 	data, _ := json.MarshalIndent(ev, "", " ")
-	if err := os.WriteFile(filepath.Join(verifDir, "evidence", plan.ID+".json"), data, 0o644); err != nil {
+	if err := os.WriteFile(filepath.Join(outDir(), "evidence", plan.ID+".json"), data, 0o644); err != nil {
 		fatal2("cannot write evidence: %v", err)
 	}
 }
@@ -971,9 +1003,10 @@ func cmdDebug(args []string) int {
 	scen := fs.String("scenario", "", "scenario")
 	run := fs.Int("run", 0, "run index")
 	race := fs.Bool("race", false, "race build")
+	fine := fs.Bool("fine", false, "fine-grain build (statement-level yields in the buffer files)")
 	findCapped := fs.Int("find", 0, "search this many runs for a non-ok outcome first")
 	fs.Parse(args)
-	b, err := buildSimTree(buildOpts{Race: *race})
+	b, err := buildSimTree(buildOpts{Race: *race, Fine: *fine})
 	if err != nil {
 		fatal2("%v", err)
 	}
@@ -988,7 +1021,7 @@ func cmdDebug(args []string) int {
 		for _, v := range r.Violations {
 			fmt.Printf("violation run=%d %s: %s\n", v.Run, v.Fingerprint, firstLine(v.Message))
 		}
-		fmt.Println(r.Outcomes, r.HarnessError)
+		fmt.Println(r.Outcomes, r.HarnessError, "violating runs per class:", r.ClassRuns)
 		return 0
 	}
 	resp, err := runWorker(b, Request{Scenario: *scen, Seed: seedFromEnv(), Start: *run, Mode: "debug"}, 2, 5*time.Minute)
